@@ -463,9 +463,11 @@ fn draw_cfg(rng: &mut Rng) -> Cfg {
     c.insert("mock_clock".into(), rng.pct(30) as i64);
     c.insert("start".into(), *rng.pick(&[0i64, 0, 7, 1_000_000]));
     c.insert("step".into(), *rng.pick(&[1i64, 5, 10, 1000]));
-    c.insert("alphabet".into(), rng.range(2, 5));
+    c.insert("alphabet".into(), if rng.pct(88) { rng.range(2, 5) } else { *rng.pick(&[8i64, 13]) });
     c.insert("with_max".into(), rng.pct(40) as i64);
-    c.insert("k".into(), rng.range(1, 6));
+    // live futures: mostly few (small joint states recur), sometimes many (batch loops, deep heaps / queues)
+    let k = if rng.pct(88) { rng.range(1, 6) } else { *rng.pick(&[9i64, 16]) };
+    c.insert("k".into(), k);
     c.insert("len".into(), rng.range(8, 96));
     c.insert("realism".into(), *rng.pick(&[10, 50, 90]));
     let base = [160u32, 300, 90, 60, 160, 120, 2];
